@@ -5,7 +5,7 @@ from fractions import Fraction as Fr
 from ..absstr import SegStr
 from ..nf import Rat, C
 from ..source import Unsupported, AnchorError
-from ..xlate import Interp, Frame, Obj, ListV, DictV, Raised, RankOrder, _RaisedExc
+from ..xlate import canonical_extremum, Interp, Frame, Obj, ListV, DictV, Raised, RankOrder, _RaisedExc
 from .common import same, show, coeff_vector
 from .rxnfix import species as opaque_species, set_public, get_public, make_reaction, state_sum
 
@@ -597,6 +597,13 @@ def reaction_emitters(run, repo):
                     return False
                 if clamp_args is None:
                     return val.eq(wantE)
+                # the largest of the candidates in the spelling-independent form of the interpreter (positive factors -
+                # R, T, unit factors - in front of the maximum, nested maxima flattened)
+                try:
+                    if val.eq(canonical_extremum(I, 'max', [x_ * Rk * T for x_ in clamp_args])):
+                        return True
+                except Unsupported:
+                    pass
                 at = [x_ for x_ in val.atoms() if x_ in I.extrema and x_.startswith('MAX{')]
                 if len(at) != 1:
                     return False
